@@ -167,6 +167,10 @@ func (c *Ctx) execInstr(in ssa.Instruction, st *State) {
 		}
 		c.vals[x] = v
 		c.closures[x] = ci
+		// the function a closure value was made from is a property of the value (spec: boundTo)
+		_, cshort, _ := fnIDs(ci.fn)
+		c.declareFun("closurefn", []string{"Int"}, "Int")
+		c.asserts = append(c.asserts, sEq(sApp("closurefn", r), fmt.Sprint(c.provID("closure:"+cshort))))
 	case *ssa.MakeMap:
 		c.set(x, &Val{K: VScalar, T: x.Type(), S: c.newRef("map")})
 		c.mapInit(x, st)
